@@ -205,6 +205,28 @@ def run(ctx):
                     if keyed and any(t in (("is", "None", r_.value.id, False), ("is", r_.value.id, "None", False), ("truthy", r_.value.id, "", True)) for t in simple):
                         ok = True
                         why = "the returned actor was looked up under the address and is present"
+            # or its key was looked up under the address by a helper:  key = self._find_key(spec); if key is not None: return self._actors[key]
+            if not ok and isinstance(r_.value, ast.Subscript) and isinstance(r_.value.slice, ast.Name):
+                kn = r_.value.slice.id
+                for a_ in assignments_to(rt, kn):
+                    v_ = getattr(a_, "value", None)
+                    if isinstance(v_, ast.Call) and any(norm(z) == spec for z in v_.args) and \
+                            any(t in (("is", "None", kn, False), ("is", kn, "None", False)) for t in simple):
+                        h_ = None
+                        if isinstance(v_.func, ast.Attribute) and dotted(v_.func.value) == "self":
+                            try:
+                                h_ = p.method("BaseInterpreter", v_.func.attr)
+                            except Exception:
+                                h_ = None
+                        # the helper hands a key back only under an equality with the address it was given
+                        if h_ is not None:
+                            hp = [q for q in h_.params if q not in ("self", "cls")]
+                            rets_h = [x for x in own_nodes(h_.node) if isinstance(x, ast.Return) and x.value is not None and not (isinstance(x.value, ast.Constant) and x.value.value is None)]
+                            tied = bool(hp) and bool(rets_h) and all(any((cp_ := compare_parts(g_)) is not None and isinstance(cp_[1], ast.Eq) and pol_ and hp[0] in (norm(cp_[0]), norm(cp_[2]))
+                                                                         for g_, pol_ in guards_at(h_, x)) for x in rets_h)
+                            if tied:
+                                ok = True
+                                why = "the actor's key was looked up under the address (by a helper that returns a key only for that address) and is present"
         ok = ok and not consts
         from sa.util import enclosing_loops as _el
         if ok and _el(rt, r_) and isinstance(r_.value, ast.Call) and isinstance(r_.value.func, ast.Attribute) and r_.value.func.attr == "get":
